@@ -269,8 +269,14 @@ impl Ctx {
             out.line("MACHINERY-ERROR: nothing was explored");
             return 2;
         }
+        let hp = HARNESS_PANICS.load(Ordering::Relaxed);
+        if hp > 0 {
+            out.line(&format!("MACHINERY-ERROR: {} work item(s) of the harness panicked (last: {})", hp, LAST_HARNESS_PANIC.lock().unwrap()));
+        }
         if new_violations > 0 {
             1
+        } else if hp > 0 {
+            2
         } else {
             0
         }
@@ -354,6 +360,9 @@ pub fn fill(seed: u64, label: &str, n: usize) -> Vec<u8> {
     out
 }
 
+pub static HARNESS_PANICS: AtomicUsize = AtomicUsize::new(0);
+pub static LAST_HARNESS_PANIC: Mutex<String> = Mutex::new(String::new());
+
 pub fn n_workers() -> usize {
     std::env::var("VERIF_WORKERS").ok().and_then(|s| s.parse().ok()).unwrap_or_else(|| {
         std::thread::available_parallelism().map(|n| n.get()).unwrap_or(4).min(16)
@@ -371,7 +380,11 @@ pub fn par_for<T: Sync, F: Fn(usize, &T) + Sync>(items: &[T], f: F) {
                 if i >= items.len() {
                     break;
                 }
-                f(i, &items[i]);
+                // a panic of the HARNESS inside one work item must not take the run down (and hide what the other items found)
+                if std::panic::catch_unwind(std::panic::AssertUnwindSafe(|| f(i, &items[i]))).is_err() {
+                    HARNESS_PANICS.fetch_add(1, Ordering::Relaxed);
+                    *LAST_HARNESS_PANIC.lock().unwrap() = last_panic();
+                }
             });
         }
     });
@@ -413,6 +426,7 @@ thread_local! {
 
 /// Install a panic hook that records the message per thread instead of printing.
 pub fn quiet_panics() {
+    if std::env::var("VERIF_LOUD_PANICS").is_ok() { return; }
     std::panic::set_hook(Box::new(|info| {
         let msg = if let Some(s) = info.payload().downcast_ref::<&str>() {
             s.to_string()
